@@ -1,7 +1,733 @@
-//! C02: not implemented yet.
-use crate::util::Args;
+//! C02 (and, through `run_mc`, C03): the real `patronus::mc::bmc` against real solvers.
+//! One case per system:
+//! (case ID (sys ..) (named ..) (names ..) (k K) (simp (sys ..))?
+//!   (runs (run (profile P) (session fresh|reused) (mode indiv|joint) (simp raw|simplified) (z3args "..") RESULT)..))
+//! RESULT  = (success) | (unknown) | (err "msg") | (panic "msg") | (fail WITNESS (sim "ok"|"skipped: .."|"mismatch: .."))
+//! WITNESS = (witness (init (v NAME VAL)..) (inputs (step (v NAME VAL)..)..) (failed idx..))
+//! NAME    = "name" | (noname);   VAL = (bv w bits) | (arr iw dw bits..) | (none)
+//!
+//! Profiles: z3 and cvc5 drive the real SmtLibSolverCtx directly (patronus::smt::Z3 / CVC5); bitwuzla and
+//! yices-smt2 are not installed: harness/shims/{bitwuzla,yices-smt2} put z3 behind the BITWUZLA / YICES2
+//! capability profiles (check-sat-assuming vs push/pop emulation, logic selection), found through a private
+//! PATH entry.  Solver processes are expensive here, so most runs share one process per profile: each run is
+//! bracketed by push/pop (declarations are scoped) and the repeated set-logic is swallowed; every few runs
+//! a fresh process is used exactly as a user of the library would.
+use crate::c04::mcgen::*;
+use crate::c04::sexp_to_string;
+use crate::dump::*;
+use crate::exprgen::*;
+use crate::rng::Rng;
+use crate::sexp::{Sexp, read_cases};
+use crate::sysgen::dump_sys;
+use crate::util::*;
+use baa::{ArrayOps, BitVecOps, BitVecValue, Value};
+use patronus::expr::*;
+use patronus::mc::{InitValue, ModelCheckResult, Witness, bmc};
+use patronus::sim::{InitKind, Interpreter, Simulator};
+use patronus::smt::*;
+use patronus::system::transform::simplify_expressions;
+use patronus::system::*;
+use std::collections::HashMap;
+use std::io::Write;
 
-pub fn run(_args: &Args) {
-    eprintln!("C02: harness module not implemented yet");
-    std::process::exit(2);
+pub const PROFILES: [&str; 4] = ["z3", "cvc5", "bitwuzla", "yices-smt2"];
+
+pub fn solver_of(p: &str) -> SmtLibSolver {
+    match p {
+        "z3" => Z3,
+        "cvc5" => CVC5,
+        "bitwuzla" => BITWUZLA,
+        "yices-smt2" => YICES2,
+        other => panic!("unknown profile {other}"),
+    }
+}
+
+/// put the shim directory in front of PATH (once)
+pub fn setup_path() {
+    let dir = std::env::var("VERIF_SHIM_DIR").unwrap_or_else(|_| {
+        // the real location of this source file's crate: follow the src symlink of scratch copies
+        let src = std::fs::canonicalize(concat!(env!("CARGO_MANIFEST_DIR"), "/src")).expect("src dir");
+        src.parent().unwrap().join("shims").to_string_lossy().into_owned()
+    });
+    let old = std::env::var("PATH").unwrap_or_default();
+    if !old.starts_with(&dir) {
+        // SAFETY: single-threaded harness
+        unsafe { std::env::set_var("PATH", format!("{dir}:{old}")) };
+    }
+}
+
+pub fn set_z3_args(a: &str) {
+    unsafe { std::env::set_var("SHIM_Z3_ARGS", a) };
+}
+
+/// the logic `start_bmc_or_pdr` selects for a solver
+fn logic_for(s: &impl SolverMetaData) -> Logic {
+    if s.name() == "z3" {
+        Logic::All
+    } else if s.supports_uf() {
+        Logic::QfAufbv
+    } else {
+        Logic::QfAbv
+    }
+}
+
+/// A view of a long-lived solver process for one run: forwards everything, swallows the repeated
+/// set-logic (it was sent when the process was started), counts push/pop so that the caller can
+/// restore the outer level.
+pub struct Wrap<'a> {
+    inner: &'a mut SmtLibSolverCtx,
+    depth: usize,
+    logic_mismatch: bool,
+}
+
+impl SolverMetaData for Wrap<'_> {
+    fn name(&self) -> &str {
+        self.inner.name()
+    }
+    fn supports_check_assuming(&self) -> bool {
+        self.inner.supports_check_assuming()
+    }
+    fn supports_uf(&self) -> bool {
+        self.inner.supports_uf()
+    }
+    fn supports_const_array(&self) -> bool {
+        self.inner.supports_const_array()
+    }
+    fn supports_get_unsat_assumptions(&self) -> bool {
+        self.inner.supports_get_unsat_assumptions()
+    }
+}
+
+impl SolverContext for Wrap<'_> {
+    fn restart(&mut self) -> Result<()> {
+        self.inner.restart()
+    }
+    fn set_logic(&mut self, option: Logic) -> Result<()> {
+        if option != logic_for(self.inner) {
+            self.logic_mismatch = true;
+        }
+        Ok(())
+    }
+    fn assert(&mut self, ctx: &Context, e: ExprRef) -> Result<()> {
+        self.inner.assert(ctx, e)
+    }
+    fn declare_const(&mut self, ctx: &Context, symbol: ExprRef) -> Result<()> {
+        self.inner.declare_const(ctx, symbol)
+    }
+    fn define_const(&mut self, ctx: &Context, symbol: ExprRef, expr: ExprRef) -> Result<()> {
+        self.inner.define_const(ctx, symbol, expr)
+    }
+    fn check_sat_assuming(&mut self, ctx: &Context, props: impl IntoIterator<Item = ExprRef>) -> Result<CheckSatResponse> {
+        self.inner.check_sat_assuming(ctx, props)
+    }
+    fn check_sat(&mut self) -> Result<CheckSatResponse> {
+        self.inner.check_sat()
+    }
+    fn push(&mut self) -> Result<()> {
+        self.depth += 1;
+        self.inner.push()
+    }
+    fn pop(&mut self) -> Result<()> {
+        self.depth = self.depth.saturating_sub(1);
+        self.inner.pop()
+    }
+    fn get_value(&mut self, ctx: &mut Context, e: ExprRef) -> Result<ExprRef> {
+        self.inner.get_value(ctx, e)
+    }
+    fn get_unsat_assumptions(&mut self, ctx: &mut Context) -> Result<Vec<ExprRef>> {
+        self.inner.get_unsat_assumptions(ctx)
+    }
+}
+
+pub struct Pool {
+    sessions: HashMap<String, SmtLibSolverCtx>,
+    pub launches: u64,
+}
+
+impl Pool {
+    pub fn new() -> Self {
+        Pool { sessions: HashMap::new(), launches: 0 }
+    }
+    pub fn drop_all(&mut self) {
+        self.sessions.clear();
+    }
+    pub fn drop_profile(&mut self, p: &str) {
+        self.sessions.remove(p);
+    }
+}
+
+pub enum RunResult {
+    Success,
+    Unknown,
+    Fail(Witness),
+    Err(String),
+    Panic(String),
+}
+
+/// Wall-clock guard around the calls into the library: the library can spin for ever when a solver
+/// process dies (read_response on EOF).  A watchdog thread ends the harness with a diagnostic (exit
+/// code 3: infrastructure failure) instead of hanging the check.
+static WATCH_DEADLINE: std::sync::atomic::AtomicU64 = std::sync::atomic::AtomicU64::new(0);
+static WATCH_STARTED: std::sync::Once = std::sync::Once::new();
+
+fn now_s() -> u64 {
+    std::time::SystemTime::now().duration_since(std::time::UNIX_EPOCH).map(|d| d.as_secs()).unwrap_or(0)
+}
+
+pub fn watchdog_arm(limit_s: u64, what: &str) {
+    WATCH_STARTED.call_once(|| {
+        std::thread::spawn(|| loop {
+            std::thread::sleep(std::time::Duration::from_millis(500));
+            let d = WATCH_DEADLINE.load(std::sync::atomic::Ordering::SeqCst);
+            if d != 0 && now_s() > d {
+                let what = std::fs::read_to_string(format!("c02-current-run-{}.txt", std::process::id())).unwrap_or_default();
+                eprintln!("harness watchdog: a call into patronus::mc::bmc did not return in time (the library spins when the solver process has exited); current run:\n{what}");
+                std::process::exit(3);
+            }
+        });
+    });
+    let _ = std::fs::write(format!("c02-current-run-{}.txt", std::process::id()), what);
+    WATCH_DEADLINE.store(now_s() + limit_s, std::sync::atomic::Ordering::SeqCst);
+}
+
+pub fn watchdog_disarm() {
+    WATCH_DEADLINE.store(0, std::sync::atomic::Ordering::SeqCst);
+}
+
+/// one call of the real `bmc`
+pub fn run_bmc(pool: &mut Pool, profile: &str, fresh: bool, ctx: &mut Context, sys: &TransitionSystem, individually: bool, k: u64) -> RunResult {
+    let solver = solver_of(profile);
+    let to_res = |r: std::result::Result<Result<ModelCheckResult>, String>| match r {
+        Ok(Ok(ModelCheckResult::Success)) => RunResult::Success,
+        Ok(Ok(ModelCheckResult::Unknown)) => RunResult::Unknown,
+        Ok(Ok(ModelCheckResult::Fail(w))) => RunResult::Fail(w),
+        Ok(Err(e)) => RunResult::Err(format!("{e}")),
+        Err(p) => RunResult::Panic(format!("{p} @ {}", last_panic_loc())),
+    };
+    if fresh {
+        pool.launches += 1;
+        // debugging aid: VERIF_SMT_REPLAY=<file> makes fresh runs write patronus' replay file
+        let replay = std::env::var("VERIF_SMT_REPLAY").ok().and_then(|p| std::fs::File::create(p).ok());
+        let mut smt = match solver.start(replay) {
+            Ok(s) => s,
+            Err(e) => return RunResult::Err(format!("cannot start {profile}: {e}")),
+        };
+        return to_res(guarded(|| bmc(ctx, &mut smt, sys, false, individually, k)));
+    }
+    if !pool.sessions.contains_key(profile) {
+        pool.launches += 1;
+        let mut s = match solver.start(None) {
+            Ok(s) => s,
+            Err(e) => return RunResult::Err(format!("cannot start {profile}: {e}")),
+        };
+        let l = logic_for(&s);
+        if let Err(e) = s.set_logic(l) {
+            return RunResult::Err(format!("set-logic: {e}"));
+        }
+        pool.sessions.insert(profile.to_string(), s);
+    }
+    let inner = pool.sessions.get_mut(profile).unwrap();
+    if let Err(e) = inner.push() {
+        pool.sessions.remove(profile);
+        return RunResult::Err(format!("outer push: {e}"));
+    }
+    let (res, depth, mismatch) = {
+        let mut w = Wrap { inner, depth: 0, logic_mismatch: false };
+        let r = guarded(|| bmc(ctx, &mut w, sys, false, individually, k));
+        (r, w.depth, w.logic_mismatch)
+    };
+    let res = to_res(res);
+    let broken = matches!(res, RunResult::Err(_) | RunResult::Panic(_));
+    if broken {
+        // the session may be out of step with the solver's output: discard it
+        pool.sessions.remove(profile);
+    } else {
+        let inner = pool.sessions.get_mut(profile).unwrap();
+        let mut ok = true;
+        for _ in 0..=depth {
+            ok &= inner.pop().is_ok();
+        }
+        if !ok {
+            pool.sessions.remove(profile);
+        }
+    }
+    if mismatch {
+        return RunResult::Err("harness: bmc selected another logic than the session was started with".to_string());
+    }
+    res
+}
+
+// ---------------------------------------------------------------- dumps
+pub fn dump_value(v: &Value) -> String {
+    match v {
+        Value::BitVec(b) => format!("(bv {} {})", b.width(), bv_tok(b)),
+        Value::Array(a) => {
+            let mut s = format!("(arr {} {}", a.index_width(), a.data_width());
+            for i in 0..a.num_elements() {
+                let idx = BitVecValue::from_u64(i as u64, a.index_width());
+                s.push(' ');
+                s.push_str(&bv_tok(&a.select(&idx)));
+            }
+            s.push(')');
+            s
+        }
+    }
+}
+
+fn dump_name(n: &Option<String>) -> String {
+    match n {
+        Some(s) => quote(s),
+        None => "(noname)".to_string(),
+    }
+}
+
+pub fn dump_witness(w: &Witness) -> String {
+    let mut s = String::from("(witness (init");
+    for (k, v) in w.init.iter().enumerate() {
+        let name = w.init_names.get(k).cloned().unwrap_or(None);
+        let val = match v {
+            InitValue::BitVec(b) => dump_value(&Value::BitVec(b.clone())),
+            InitValue::Array(a, _) => dump_value(&Value::Array(a.clone())),
+            InitValue::None => "(none)".to_string(),
+        };
+        s.push_str(&format!(" (v {} {})", dump_name(&name), val));
+    }
+    // names without a value are kept visible
+    for k in w.init.len()..w.init_names.len() {
+        s.push_str(&format!(" (v {} (none))", dump_name(&w.init_names[k])));
+    }
+    s.push_str(") (inputs");
+    for step in w.inputs.iter() {
+        s.push_str(" (step");
+        for (k, v) in step.iter().enumerate() {
+            let name = w.input_names.get(k).cloned().unwrap_or(None);
+            let val = match v {
+                Some(v) => dump_value(v),
+                None => "(none)".to_string(),
+            };
+            s.push_str(&format!(" (v {} {})", dump_name(&name), val));
+        }
+        s.push(')');
+    }
+    s.push_str(") (input-names");
+    for n in w.input_names.iter() {
+        s.push(' ');
+        s.push_str(&dump_name(n));
+    }
+    s.push_str(") (failed");
+    for f in w.failed_safety.iter() {
+        s.push_str(&format!(" {f}"));
+    }
+    s.push_str("))");
+    s
+}
+
+/// Replay a witness through patronus' own simulator.  "ok" | "skipped: why" | "mismatch: what"
+pub fn sim_replay(ctx: &Context, sys: &TransitionSystem, w: &Witness) -> String {
+    if sys.states.iter().any(|s| matches!(s.symbol.get_type(ctx), Type::Array(_))) {
+        return "skipped: array state (Interpreter::set takes bit-vectors only)".to_string();
+    }
+    if w.init.len() != sys.states.len() || w.inputs.is_empty() || w.inputs.iter().any(|s| s.len() != sys.inputs.len()) {
+        return "mismatch: witness shape".to_string();
+    }
+    let nextless = sys.states.iter().any(|s| s.next.is_none());
+    let r = guarded(|| -> String {
+        let mut sim = Interpreter::new(ctx, sys);
+        sim.init(InitKind::Zero);
+        for (st, v) in sys.states.iter().zip(w.init.iter()) {
+            match v {
+                InitValue::BitVec(b) => sim.set(st.symbol, b),
+                _ => return "mismatch: state without bit-vector value".to_string(),
+            }
+        }
+        let set_inputs = |sim: &mut Interpreter, step: &Vec<Option<Value>>| -> bool {
+            for (i, v) in sys.inputs.iter().zip(step.iter()) {
+                match v {
+                    Some(Value::BitVec(b)) => sim.set(*i, b),
+                    _ => return false,
+                }
+            }
+            true
+        };
+        if !set_inputs(&mut sim, &w.inputs[0]) {
+            return "mismatch: input without bit-vector value".to_string();
+        }
+        // initial values agree with the init expressions
+        for (st, v) in sys.states.iter().zip(w.init.iter()) {
+            if let (Some(init), InitValue::BitVec(b)) = (st.init, v) {
+                match sim.get(init) {
+                    Value::BitVec(x) if x.is_equal(b) => {}
+                    _ => return format!("mismatch: init of {}", ctx.get_symbol_name(st.symbol).unwrap_or("?")),
+                }
+            }
+        }
+        let last = w.inputs.len() - 1;
+        for (k, step) in w.inputs.iter().enumerate() {
+            if !set_inputs(&mut sim, step) {
+                return "mismatch: input without bit-vector value".to_string();
+            }
+            for (ci, c) in sys.constraints.iter().enumerate() {
+                match sim.get(*c) {
+                    Value::BitVec(x) if !x.is_zero() => {}
+                    _ => return format!("mismatch: constraint {ci} violated at step {k}"),
+                }
+            }
+            if k == last {
+                let mut any = false;
+                for (bi, b) in sys.bad_states.iter().enumerate() {
+                    let holds = matches!(sim.get(*b), Value::BitVec(x) if !x.is_zero());
+                    any |= holds;
+                    if holds != w.failed_safety.contains(&(bi as u32)) {
+                        return format!("mismatch: bad state {bi} holds={holds} at the last step, failed_safety={:?}", w.failed_safety);
+                    }
+                }
+                if !any {
+                    return "mismatch: no bad state at the last step".to_string();
+                }
+            } else {
+                sim.step();
+            }
+        }
+        "ok".to_string()
+    });
+    match r {
+        Ok(s) if s.starts_with("mismatch") && nextless && w.inputs.len() > 1 => format!("skipped: state without next function (free in the encoding, kept by the simulator); replay said {s}"),
+        Ok(s) => s,
+        Err(p) => format!("skipped: simulator panicked: {p} @ {}", last_panic_loc()),
+    }
+}
+
+/// does the system contain (as const ..) applied to something that is not a literal?  cvc5 refuses
+/// such a term, prints a multi-line parse error and EXITS; patronus' read_response then spins on EOF.
+pub fn has_nonvalue_const_array(ctx: &Context, sys: &TransitionSystem) -> bool {
+    // a literal that is itself a constraint / bad state becomes a signal: the encoding then
+    // replaces it by its step symbol everywhere, also below (as const ..)
+    let literal_root = sys.constraints.iter().chain(sys.bad_states.iter()).any(|e| matches!(ctx[*e], Expr::BVLiteral(_)));
+    all_nodes(ctx, sys).iter().any(|n| match &ctx[*n] {
+        Expr::ArrayConstant { e, .. } => literal_root || !matches!(ctx[*e], Expr::BVLiteral(_)),
+        _ => false,
+    })
+}
+
+/// Run one (profile, mode, simp) in a child process of this harness with a wall-clock limit: used for
+/// runs that are known to be able to hang the library (see above).  Returns the `(run ..)` text.
+pub fn run_in_child(case_txt: &str, r: &RunSpec, limit_s: u64) -> String {
+    let stem = format!("c02-child-{}", std::process::id());
+    let inp = format!("{stem}.in");
+    let outp = format!("{stem}.out");
+    std::fs::write(&inp, format!("{case_txt}\n")).expect("child input");
+    let _ = std::fs::remove_file(&outp);
+    let spec = format!("{},{},{}", r.profile, if r.individually { "indiv" } else { "joint" }, if r.simplified { "simplified" } else { "raw" });
+    let exe = std::env::current_exe().expect("current exe");
+    let child = std::process::Command::new(exe)
+        .args(["C02", "--count", "0", "--cases-in", &inp, "--out", &outp, "--one-run", &spec])
+        .stdout(std::process::Stdio::null())
+        .stderr(std::process::Stdio::null())
+        .spawn();
+    let head = format!(
+        "(run (profile {}) (session child) (mode {}) (simp {}) (z3args \"\")",
+        r.profile,
+        if r.individually { "indiv" } else { "joint" },
+        if r.simplified { "simplified" } else { "raw" }
+    );
+    let mut child = match child {
+        Ok(c) => c,
+        Err(e) => return format!("{head} (err {}))", quote(&format!("harness: cannot start child: {e}"))),
+    };
+    let t0 = std::time::Instant::now();
+    let mut finished = false;
+    while t0.elapsed().as_secs() < limit_s {
+        match child.try_wait() {
+            Ok(Some(_)) => {
+                finished = true;
+                break;
+            }
+            _ => std::thread::sleep(std::time::Duration::from_millis(50)),
+        }
+    }
+    let res = if !finished {
+        let _ = child.kill();
+        let _ = child.wait();
+        // the solver process of the child, if it is still there
+        let _ = std::process::Command::new("pkill").args(["-P", &format!("{}", child.id())]).status();
+        format!("{head} (hang {}))", quote(&format!("no result within {limit_s} s (child process killed)")))
+    } else {
+        let txt = std::fs::read_to_string(&outp).unwrap_or_default();
+        match txt.find("(runs (run ") {
+            Some(i) => {
+                // "(runs (run ...))" + ")" of the case
+                let body = &txt[i + "(runs ".len()..];
+                let body = body.trim_end();
+                let body = &body[..body.len().saturating_sub(2)];
+                body.replace("(session fresh)", "(session child)")
+            }
+            None => format!("{head} (err \"harness: child produced no result\"))"),
+        }
+    };
+    let _ = std::fs::remove_file(&inp);
+    let _ = std::fs::remove_file(&outp);
+    let _ = std::fs::remove_file(format!("{outp}.stats.json"));
+    res
+}
+
+// ---------------------------------------------------------------- the case
+pub struct RunSpec {
+    pub profile: &'static str,
+    pub fresh: bool,
+    pub individually: bool,
+    pub simplified: bool,
+    /// this process IS the time-limited child: run directly
+    pub in_child: bool,
+}
+
+pub struct McInput {
+    pub ctx: Context,
+    pub sys: TransitionSystem,
+    pub k: u64,
+    pub features: Vec<&'static str>,
+}
+
+pub fn run_case(id: &str, inp: McInput, plan: &[RunSpec], pool: &mut Pool, z3args: &str, stats: &mut Stats, child_budget: &mut u64) -> (String, bool) {
+    let McInput { mut ctx, sys, k, features } = inp;
+    let sys_txt = dump_sys(&ctx, &sys);
+    let named = dump_named(&ctx, &sys);
+    let names = dump_names(&ctx, &sys);
+    // the simplified copy
+    let mut simp_sys = sys.clone();
+    let simp_ok = guarded(|| simplify_expressions(&mut ctx, &mut simp_sys)).is_ok();
+    let simp_txt = if simp_ok { format!(" (simp {})", dump_sys(&ctx, &simp_sys)) } else { String::new() };
+    let mut runs = String::from("(runs");
+    let mut any_fail = false;
+    // did z3 reject the script of the raw / simplified system?  (None: no z3 run on it yet)
+    let mut z3_err: [Option<bool>; 2] = [None, None];
+    let case_txt = format!("(case {id} {sys_txt} {named} (k {k}))");
+    for r in plan {
+        if r.simplified && !simp_ok {
+            continue;
+        }
+        let the_sys = if r.simplified { &simp_sys } else { &sys };
+        if r.profile == "cvc5" && !r.in_child {
+            // cvc5 exits on the first error and the library then spins: probe with z3 first
+            let vi = r.simplified as usize;
+            if z3_err[vi].is_none() {
+                let probe = run_bmc(pool, "z3", false, &mut ctx, the_sys, r.individually, k);
+                z3_err[vi] = Some(matches!(probe, RunResult::Err(_) | RunResult::Panic(_)));
+                stats.inc("z3_probe_runs_before_cvc5");
+            }
+            let risky = z3_err[vi] == Some(true) || has_nonvalue_const_array(&ctx, the_sys);
+            if risky {
+                if *child_budget > 0 {
+                    *child_budget -= 1;
+                    stats.inc("cvc5_runs_in_child_process_with_time_limit");
+                    let txt = run_in_child(&case_txt, r, 8);
+                    stats.bump("verdict", if txt.contains("(hang ") { "hang" } else { "child" });
+                    runs.push(' ');
+                    runs.push_str(&txt);
+                } else {
+                    stats.inc("cvc5_runs_not_performed_would_hang");
+                    runs.push_str(&format!(
+                        " (run (profile cvc5) (session none) (mode {}) (simp {}) (z3args \"\") (notrun \"cvc5 would reject the script and exit; the library then spins (observed on the first such cases of this run)\"))",
+                        if r.individually { "indiv" } else { "joint" },
+                        if r.simplified { "simplified" } else { "raw" }
+                    ));
+                }
+                continue;
+            }
+        }
+        watchdog_arm(120, &format!("{} {} {}\n{}", r.profile, if r.individually { "indiv" } else { "joint" }, if r.simplified { "simplified" } else { "raw" }, case_txt));
+        let res = run_bmc(pool, r.profile, r.fresh, &mut ctx, the_sys, r.individually, k);
+        watchdog_disarm();
+        if r.profile == "z3" {
+            z3_err[r.simplified as usize] = Some(matches!(res, RunResult::Err(_) | RunResult::Panic(_)));
+        }
+        let res_txt = match &res {
+            RunResult::Success => {
+                stats.bump("verdict", "success");
+                "(success)".to_string()
+            }
+            RunResult::Unknown => {
+                stats.bump("verdict", "unknown");
+                "(unknown)".to_string()
+            }
+            RunResult::Err(m) => {
+                stats.bump("verdict", "err");
+                format!("(err {})", quote(m))
+            }
+            RunResult::Panic(m) => {
+                stats.bump("verdict", "panic");
+                format!("(panic {})", quote(m))
+            }
+            RunResult::Fail(w) => {
+                any_fail = true;
+                stats.bump("verdict", "fail");
+                stats.bump("cex_length", &format!("{}", w.inputs.len()));
+                let sim = sim_replay(&ctx, the_sys, w);
+                stats.bump("sim_replay", sim.split(':').next().unwrap_or("?"));
+                format!("(fail {} (sim {}))", dump_witness(w), quote(&sim))
+            }
+        };
+        stats.bump("config", &format!("{}/{}/{}", r.profile, if r.individually { "indiv" } else { "joint" }, if r.simplified { "simplified" } else { "raw" }));
+        stats.bump("session", if r.fresh { "fresh-process" } else { "shared-process" });
+        runs.push_str(&format!(
+            " (run (profile {}) (session {}) (mode {}) (simp {}) (z3args {}) {})",
+            r.profile,
+            if r.fresh { "fresh" } else { "reused" },
+            if r.individually { "indiv" } else { "joint" },
+            if r.simplified { "simplified" } else { "raw" },
+            quote(if r.profile == "bitwuzla" || r.profile == "yices-smt2" { z3args } else { "" }),
+            res_txt
+        ));
+    }
+    runs.push(')');
+    // the loop itself, against a recording solver that answers "unsat" to everything
+    let ca = stats.counters.get("loop_recordings").copied().unwrap_or(0) % 2 == 0;
+    let indiv = (stats.counters.get("loop_recordings").copied().unwrap_or(0) / 2) % 2 == 0;
+    stats.inc("loop_recordings");
+    let mut rec = crate::c04::Recorder::new(ca);
+    let loop_res = guarded(|| bmc(&mut ctx, &mut rec, &sys, false, indiv, k));
+    let mut loop_txt = format!("(loop (check-assuming {}) (mode {}) ", if ca { "yes" } else { "no" }, if indiv { "indiv" } else { "joint" });
+    match loop_res {
+        Ok(Ok(ModelCheckResult::Success)) => {
+            loop_txt.push_str("(events");
+            for c in rec.cmds.iter() {
+                if matches!(c, crate::c04::RCmd::SetLogic(_)) {
+                    continue;
+                }
+                loop_txt.push(' ');
+                loop_txt.push_str(&crate::c04::dump_cmd(&ctx, c));
+            }
+            loop_txt.push_str("))");
+        }
+        Ok(_) => loop_txt.push_str("(unexpected))"),
+        Err(m) => loop_txt.push_str(&format!("(panic {}))", quote(&format!("{m} @ {}", last_panic_loc())))),
+    }
+    for f in features.iter() {
+        stats.bump("features", f);
+    }
+    stats.bump("k", &format!("{k}"));
+    stats.bump("bads", &format!("{}", sys.bad_states.len()));
+    stats.bump("constraints", &format!("{}", sys.constraints.len()));
+    (format!("(case {id} {sys_txt} {named} {names} (k {k}){simp_txt} {loop_txt} {runs})"), any_fail)
+}
+
+pub const Z3_ARG_SETS: [&str; 6] = [
+    "",
+    "smt.random_seed=7 sat.random_seed=11",
+    "smt.phase_selection=5 smt.random_seed=3 sat.random_seed=5 sat.phase=random",
+    "smt.phase_selection=1 sat.phase=always_true",
+    "smt.phase_selection=0 sat.phase=always_false smt.random_seed=99",
+    "smt.arith.random_initial_value=true smt.random_seed=1234 sat.random_seed=4321 smt.phase_selection=5",
+];
+
+/// shared by C02 (`witness_focus = false`) and C03 (`true`: only failing systems are kept, and each
+/// is re-run under several model-diversity settings)
+pub fn run_mc(args: &Args, witness_focus: bool) {
+    setup_path();
+    let mut rng = Rng::new(args.seed);
+    let mut out = std::io::BufWriter::new(std::fs::File::create(&args.out).expect("out file"));
+    let mut stats = Stats::default();
+    let mut distinct = std::collections::HashSet::new();
+    let mut pool = Pool::new();
+    let fresh_every = args.get_u64("fresh-every", 12);
+    let reseed_every = args.get_u64("reseed-every", 25);
+    let kmax = args.get_u64("kmax", 8);
+    let mut z3args = Z3_ARG_SETS[0];
+    set_z3_args(z3args);
+    let mut run_no = 0u64;
+    let mut child_budget = args.get_u64("child-runs", 3);
+    let mut emit = |line: String, stats: &mut Stats, distinct: &mut std::collections::HashSet<String>| {
+        let key_from = line.find("(sys").unwrap_or(0);
+        let key_to = line.find("(runs").unwrap_or(line.len());
+        distinct.insert(line[key_from..key_to].to_string());
+        stats.sample(&line, 2);
+        writeln!(out, "{line}").unwrap();
+    };
+    let mut plan_for = |rng: &mut Rng, run_no: &mut u64, diversity: bool| -> Vec<RunSpec> {
+        let mut plan = vec![];
+        for p in PROFILES.iter() {
+            *run_no += 1;
+            plan.push(RunSpec { profile: p, fresh: fresh_every > 0 && *run_no % fresh_every == 0, individually: rng.chance(1, 2), simplified: rng.chance(1, 2), in_child: false });
+        }
+        if diversity {
+            // the same query again, other modes
+            plan.push(RunSpec { profile: "bitwuzla", fresh: false, individually: true, simplified: false, in_child: false });
+            plan.push(RunSpec { profile: "yices-smt2", fresh: false, individually: false, simplified: false, in_child: false });
+        }
+        plan
+    };
+    if let Some(path) = args.get("cases-in") {
+        for c in read_cases(path).iter() {
+            let id = c.list()[1].atom().to_string();
+            let mut ctx = Context::default();
+            let sys = sys_from_case(&mut ctx, c);
+            let k = c.field("k").map(|f| f[0].num()).unwrap_or(4);
+            let mut plan = vec![];
+            if let Some(spec) = args.get("one-run") {
+                // time-limited child of another harness process: exactly one run, directly
+                let parts: Vec<&str> = spec.split(',').collect();
+                let profile = *PROFILES.iter().find(|p| **p == parts[0]).expect("profile");
+                plan.push(RunSpec { profile, fresh: true, individually: parts[1] == "indiv", simplified: parts[2] == "simplified", in_child: true });
+            } else {
+                // replay: every profile, both modes, raw and simplified, fresh processes
+                for p in PROFILES.iter() {
+                    for (ind, simp) in [(true, false), (false, false), (true, true), (false, true)] {
+                        plan.push(RunSpec { profile: p, fresh: true, individually: ind, simplified: simp, in_child: false });
+                    }
+                }
+            }
+            let (line, _) = run_case(&id, McInput { ctx, sys, k, features: vec![] }, &plan, &mut pool, z3args, &mut stats, &mut child_budget);
+            emit(line, &mut stats, &mut distinct);
+        }
+    }
+    let cfg = McCfg { max_state_bits: args.get_u64("state-bits", 8) as u32, max_input_bits: args.get_u64("input-bits", 4) as u32, ..McCfg::default() };
+    let mut n = 0u64;
+    let mut produced = 0u64;
+    let mut attempts = 0u64;
+    while produced < args.count && attempts < args.count * 40 {
+        attempts += 1;
+        let mut r = rng.fork();
+        if reseed_every > 0 && n % reseed_every == 0 {
+            // new model-diversity settings for the z3-backed shims: needs new processes
+            z3args = Z3_ARG_SETS[((n / reseed_every) % Z3_ARG_SETS.len() as u64) as usize];
+            set_z3_args(z3args);
+            pool.drop_profile("bitwuzla");
+            pool.drop_profile("yices-smt2");
+        }
+        n += 1;
+        let mut ctx = Context::default();
+        let g = gen_mc_sys(&mut ctx, &mut r, &cfg, &mut stats);
+        let k = match g.depth_hint {
+            Some(v) if r.chance(3, 4) => r.range(v.saturating_sub(1).max(1), (v + 3).min(kmax)),
+            _ => r.range(1, kmax),
+        };
+        if witness_focus {
+            // keep only systems that fail under z3
+            let probe = run_bmc(&mut pool, "z3", false, &mut ctx, &g.sys, false, k);
+            match &probe {
+                RunResult::Fail(w) => {
+                    // most counterexamples are at depth 0: keep only a third of those
+                    if w.inputs.len() == 1 && r.chance(2, 3) {
+                        stats.inc("depth0_counterexamples_thinned_out");
+                        continue;
+                    }
+                }
+                _ => {
+                    stats.inc("systems_without_counterexample_skipped");
+                    continue;
+                }
+            }
+        }
+        let plan = plan_for(&mut r, &mut run_no, witness_focus);
+        let (line, _) = run_case(&format!("{produced}"), McInput { ctx, sys: g.sys, k, features: g.features }, &plan, &mut pool, z3args, &mut stats, &mut child_budget);
+        emit(line, &mut stats, &mut distinct);
+        produced += 1;
+    }
+    pool.drop_all();
+    stats.add("solver_processes_started", pool.launches);
+    stats.add("distinct_cases", distinct.len() as u64);
+    stats.write(&args.out);
+}
+
+pub fn run(args: &Args) {
+    run_mc(args, false);
 }
